@@ -24,7 +24,7 @@ def seeded_table():
     n = len(rows)
     missed = sum(1 for r in rows if "missed, then" in r)
     other = sum(1 for r in rows if "not by the check of the property" in r)
-    return ("%d independently seeded changes (2 per property and round, written by sub-agents that saw only the property text and a "
+    return ("%d independently seeded changes (2 per property and round - 1 for twelve properties in round 7 -, written by sub-agents that saw only the property text and a "
             "scratch worktree); every one compiles, passes the pinned suite, and has a demonstration that fails with it and passes "
             "without it (confirmed with tools_seed_verify.py). %d were caught by the check of their property as it stood, %d were not "
             "visible to that check's oracle but were caught by another property's check as it stood, and %d were missed at first and "
